@@ -810,41 +810,14 @@ theorem feedPdus_append (env : Dest.Env) : ∀ (a b : List Pdu) (d : Dest.DestSt
     | ok _ d' => exact ih b d'
     | error _ _ => rfl
 
-theorem rounds_add (env : Source.Env) : ∀ (a b : Nat) (s : Source.SrcSt),
+protected theorem rounds_add (env : Source.Env) : ∀ (a b : Nat) (s : Source.SrcSt),
     Source.C07.rounds env (a + b) s =
       match Source.C07.rounds env a s with
       | none => none
       | some (o1, s1) =>
         match Source.C07.rounds env b s1 with
         | none => none
-        | some (o2, s2) => some (o1 ++ o2, s2) := by
-  intro a
-  induction a with
-  | zero =>
-    intro b s
-    simp only [Nat.zero_add, Source.C07.rounds]
-    cases Source.C07.rounds env b s with
-    | none => rfl
-    | some x => simp
-  | succ a ih =>
-    intro b s
-    have : a + 1 + b = (a + b) + 1 := by omega
-    rw [this]
-    simp only [Source.C07.rounds]
-    cases hr : Source.C07.round env s with
-    | none => rfl
-    | some x =>
-      obtain ⟨o, s1⟩ := x
-      simp only
-      rw [ih b s1]
-      cases Source.C07.rounds env a s1 with
-      | none => rfl
-      | some y =>
-        obtain ⟨o1, s2⟩ := y
-        simp only
-        cases Source.C07.rounds env b s2 with
-        | none => rfl
-        | some z => simp [List.append_assoc]
+        | some (o2, s2) => some (o1 ++ o2, s2) := Source.C07.rounds_add env
 
 /-- the receiver consumes the sender's tiles: after the first `k` of them the destination file is
 the first `k·seg` bytes of the source file -/
